@@ -35,6 +35,7 @@ def run(ctx):
     _shared_r5(ctx)
     _round6(ctx)
     _round7(ctx)
+    _round8(ctx)
 
 
 def _run_main(ctx):
@@ -166,3 +167,10 @@ def _round7(ctx):
     with ctx.rule('R02.9', "the message a caller builds is the message published: Publish's constructor helpers put each argument into the field of its name", floor=9) as r:
         A.setters_and_ctors(ctx, r, 'exchange::Publish', consts={'new': {'mandatory': 'false', 'immediate': 'false', 'properties': '<amq_protocol::protocol::basic::AMQPProperties as std::default::Default>::default()'},
                                                                  'with_properties': {'mandatory': 'false', 'immediate': 'false'}}, names=('new', 'with_properties'))
+
+
+def _round8(ctx):
+    """Rules that are necessary conditions of this property too (found by seeding round 8)."""
+    from rules import arms as A
+    with ctx.rule('R02.10', 'a publish through an Exchange handle names the exchange that was declared: the declare variants return the handle of their own exchange (shared with C12)', floor=3) as r:
+        A.include(ctx, r, 'c12', 'R12.1', pick=('exchange_declare:returns', 'exchange_declare_nowait:returns', 'exchange_declare_passive:returns'))
